@@ -25,6 +25,12 @@ inline int wpick(Rng &r, std::initializer_list<std::pair<int, int>> l) {
 
 // Value descriptor packing in Op fields: b = vseed, c = vlen, klass in bits of d (world specific).
 // value-length distribution biased towards boundaries
+// integer argument of the putint/pushint APIs: mostly 32-bit values, every fifth one from the corners of int64_t
+inline int64_t int_value(int b, int c) {
+    static const int64_t corners[8] = {INT64_MIN, INT64_MAX, INT64_MIN + 1, -1000000000000000000LL, 1000000000000000000LL, 4294967296LL, -4294967297LL, 1234567890123456789LL};
+    if (c % 5 == 0) return corners[((unsigned)b) % 8];
+    return (int64_t)b;
+}
 // lengths around the formatting buffer sizes of the printf-style APIs (1024 * 2^k)
 inline int gen_fmt_len(Rng &r) { return r.pick(std::vector<int>{1022, 1023, 1024, 1025, 1026, 2047, 2048, 2049, 4096, 4097}); }
 inline int gen_vlen(Rng &r, int maxlen) {
